@@ -360,6 +360,10 @@ impl MState {
     pub fn to_state(&self) -> State {
         let mut map: EnumMap<Event, Vec<Trans>> = EnumMap::default();
         for (ev, v) in &self.trans {
+            // a vector never chosen by a lazily synthesised behaviour was never consulted
+            if v.iter().any(|t| t.0 == -9) {
+                continue;
+            }
             map[event_by_name(ev)] = v
                 .iter()
                 .map(|(to, w)| Trans(state_target(*to), *w as f32 / 16.0))
